@@ -49,3 +49,13 @@ package json
 //@   ensures digits: forall k :: 0 <= k && k < f64len(bits(val)) ==> r0[len(buf)+k] == f64dig(bits(val), k)
 //@   ensures mem: (same(r0, buf) && cap(r0) == cap(buf)) || fresh(r0)
 //@   modifies buf[len(buf):cap(buf)]
+
+// EncodeString: quote, escaped text (native NoQuote: trusted), quote — at least the two quotes are appended, the
+// prefix is kept. TRUSTED as a whole (the escaping is assembly).
+//@ spec EncodeString
+//@   props C08 C03
+//@   trusted
+//@   ensures len: len(r0) >= len(buf) + 2 && r0[len(buf)] == 0x22 && r0[len(r0)-1] == 0x22
+//@   ensures prefix: forall i :: 0 <= i && i < len(buf) ==> r0[i] == old(buf[i])
+//@   ensures mem: (same(r0, buf) && cap(r0) == cap(buf)) || fresh(r0)
+//@   modifies buf[len(buf):cap(buf)]
